@@ -189,8 +189,14 @@ def generate(rng, tier):
         elif r < 0.88:
             ex = {mangle(rng.choice(USER + CORE_SHADOW + ["a1"])): g.tag() for _ in range(rng.randint(1, 2))}
             ops.append({"op": "eval", "stmts": g.stmts(1) + [g.probes()], "extra": ex})
-        elif r < 0.94:
+        elif r < 0.92:
             ops.append({"op": "eval", "stmts": [g.require(fail=True)], "fails": "require"})
+        elif r < 0.95:
+            # the same namespaces seen through hy.macroexpand-1 (module macros, then an explicit `macros` dict, then none
+            # again: nothing may be remembered from one call to the next)
+            names = rng.sample(USER + ["a1", "b1", "zz", "c1", "d1"], rng.randint(2, 4))
+            ex = {mangle(rng.choice(USER + ["a1", "zz"])): g.tag() for _ in range(rng.randint(1, 2))}
+            ops.append({"op": "mx", "names": names, "extra": ex if rng.random() < 0.7 else {}})
         else:
             # a local macro whose body raises while expanding; the defmacro before it in the same op must not survive
             ops.append({"op": "eval", "stmts": [["scope", rng.choice(["defn", "defclass", "lfor"]),
@@ -427,6 +433,33 @@ def execute(desc):
             if failed_before:
                 probes["ops_after_failure"] += 1
             extra_tags = op.get("extra", {})
+            if op["op"] == "mx":
+                Mo = hy.models
+                got_mx, want_mx = [], []
+                fns = {k: (lambda t: (lambda: Mo.String(t)))(t) for k, t in extra_tags.items()}
+                for n in op["names"]:
+                    form = Mo.Expression([Mo.Symbol(n)])
+                    for macros_arg in ((fns or None), None):
+                        try:
+                            r_ = hy.macroexpand_1(form, M, macros_arg)
+                            got_mx.append(str(r_) if isinstance(r_, Mo.String) else "UNCHANGED" if r_ == form else repr(r_)[:40])
+                        except BaseException as e:
+                            got_mx.append("EXC:" + type(e).__name__)
+                        m_ = mangle(n)
+                        if macros_arg and m_ in extra_tags:
+                            want_mx.append(extra_tags[m_])
+                        elif m_ in model.module:
+                            want_mx.append(model.module[m_])
+                        else:
+                            want_mx.append("UNCHANGED")
+                probes["macroexpand_probes"] = probes.get("macroexpand_probes", 0) + len(want_mx)
+                if got_mx != want_mx:
+                    viols.append({"clause": "resolution", "sig": "macroexpand-1",
+                                  "detail": {"op": oi, "names": op["names"], "extra": extra_tags, "got": got_mx, "expected": want_mx,
+                                             "module_macros": model.module}})
+                events.append([oi, ["mx"], "ok", len(got_mx), 0])
+                seq.append((("mx",), "ok"))
+                continue
             stmts = sanitize(op["stmts"], model, extra_tags)
             src = "\n".join(render(stmts, oi))
             del M.OUT[:]
